@@ -748,6 +748,15 @@ class TVGNode():
             left_offset = v.location.start % 3
         lhs = v.variant.location.start - left_offset
 
+        if v.variant.is_snv() and self.has_other_variant_in_codon(i):
+            # Another variant shares the codon, so the codon of the unmodified
+            # transcript is not what this SNV changes. Revert only this SNV.
+            lhs = v.location.start - left_offset
+            seq = self.seq.seq[lhs:v.location.start] + Seq(v.variant.ref) \
+                + self.seq.seq[v.location.end:lhs + 3]
+            seq = seq[:len(seq) - len(seq) % 3]
+            return seq.translate(to_stop=False)
+
         seq = Seq('')
         if v.variant.type in ['Deletion', 'Substitution']:
             seq += tx_seq[v.variant.location.start:v.variant.location.end]
@@ -764,6 +773,15 @@ class TVGNode():
             seq += tx_seq[v.variant.location.end:rhs]
         seq = seq[:len(seq) - len(seq) % 3]
         return seq.translate(to_stop=False)
+
+    def has_other_variant_in_codon(self, i:int) -> bool:
+        """ Whether any other variant of the node overlaps the codon of the
+        ith variant. """
+        v = self.variants[i]
+        start = v.location.start - v.location.start % 3
+        end = v.location.end + (3 - v.location.end % 3) % 3
+        return any(j != i and x.location.start < end and x.location.end > start
+            for j,x in enumerate(self.variants))
 
     def get_ref_sequence(self, tx_seq:Seq) -> Seq:
         """ Get the reference sequence """
